@@ -343,6 +343,26 @@ pub fn run(ctx: &mut Ctx) -> Result<(), Violation> {
     });
     ctx.stage("random-formulas", false, r)?;
 
+    // wide, shallow formulas: 9..14 names, longer counting lists, no fixed points
+    let cases = ctx.tier.pick(6_000, 150_000);
+    let r = par_random(ctx, "random-wide-formulas", cases, 400, |tape, st| {
+        let mut t = Tape::new(tape);
+        let nnames = 9 + t.choose(6);
+        let mut cfg = Cfg::standard(4, 1 + t.choose(3));
+        cfg.names = (0..nnames).map(|i| format!("w{}", i)).collect();
+        cfg.allow_fix = false;
+        cfg.max_list = 7;
+        let ast = gen::formula(&mut t, &cfg);
+        let text = rprint::plain(&ast);
+        self_check(&ast, &text)?;
+        st.eval();
+        st.class("wide-formula(9..14 names)");
+        let info = check_text(&text, false)?;
+        classify(&ast, &text, &info, st);
+        Ok(())
+    });
+    ctx.stage("random-wide-formulas", false, r)?;
+
     // a stage focused on fixed points
     let cases = ctx.tier.pick(40_000, 600_000);
     let r = par_random(ctx, "random-fixpoint-formulas", cases, 300, |tape, st| {
